@@ -169,7 +169,8 @@ def cmdF : String :=
        (Gen.Options.tomlKeys.filter (fun k => !Gen.Options.iniKeys.contains k))).map (fun k => str k.1)),
     bad "per_module_flags_inline_ok" ((Gen.Options.perModule.filter (fun k => !perModuleSettable genTemplate k)).map str),
     bad "strict_flags_ok" ((Gen.Options.strictFlags.filter (fun d => !strictAssignmentOk genTemplate d)).map (fun d => str d.1)),
-    bad "list_options_typed" ((Gen.Options.attrs.filter (fun a => !listAttrTyped Gen.Options.iniKeys a)).map (fun a => str a.name)),
+    bad "list_options_typed" ((Gen.Options.attrs.filter (fun a =>
+      !(listAttrTyped Gen.Options.iniKeys a && listAttrTyped Gen.Options.tomlKeys a))).map (fun a => str a.name)),
     bad "exemptions_live" (if exemptionsLiveB then [] else ["stale"])]
 
 def cmdS (arg : Str) : String :=
@@ -195,7 +196,7 @@ def cmdE : String :=
   let one (name : String) (xs : List Str) : String := s!"{name}:[" ++ ",".intercalate (xs.map str) ++ "]"
   " ".intercalate [
     one "cliOnlySpellings" (cliOnlySpellings.map Prod.fst), one "specialHandled" (specialHandled.map Prod.fst),
-    one "cliOnlySettings" (cliOnlySettings.map Prod.fst), one "knownCharSplit" knownCharSplit,
+    one "cliOnlySettings" (cliOnlySettings.map Prod.fst),
     one "derivedPerModule" (derivedPerModule.map Prod.fst)]
 
 def step (line : String) : String :=
